@@ -5,6 +5,7 @@ import Bmc.Proofs.C05.Sdr
 import Bmc.Proofs.C05.Setup
 import Bmc.Proofs.C05.Dcmi
 import Bmc.Proofs.C05.Calls
+import Bmc.Proofs.GenDec.TranslatedOk
 import Bmc.Proofs.GenDec.ReserveSDRRepositoryRsp
 import Bmc.Proofs.GenDec.GetSystemGUIDRsp
 import Bmc.Proofs.GenDec.SetSessionPrivilegeLevelRsp
@@ -32,7 +33,9 @@ import Bmc.Proofs.GenDec.Message
 import Bmc.Proofs.GenDec.GetDCMICapabilitiesInfoEnhancedSystemPowerStatisticsAttrsRsp
 import Bmc.Proofs.GenDec.GetDCMISensorInfoRsp
 import Bmc.Proofs.GenDec.FullSensorRecord
+import Bmc.Proofs.GenDec.V2Session
 import Bmc.Proofs.GenDec.AES128CBC
+import Bmc.Proofs.EndToEnd.SafeC05
 #print axioms Bmc.Proofs.C05.deviceID_total
 #print axioms Bmc.Proofs.C05.deviceID_safe
 #print axioms Bmc.Proofs.C05.chassis_total
@@ -97,6 +100,7 @@ import Bmc.Proofs.GenDec.AES128CBC
 #print axioms Bmc.Proofs.C05.exchange_total
 #print axioms Bmc.Proofs.C05.exchangePayload_total
 #print axioms Bmc.Proofs.C05.handshake_total
+#print axioms Bmc.Proofs.GenDec.translated_ok
 #print axioms Bmc.Proofs.GenDec.ReserveSDRRepositoryRsp_gen_eq
 #print axioms Bmc.Proofs.GenDec.GetSystemGUIDRsp_gen_eq
 #print axioms Bmc.Proofs.GenDec.SetSessionPrivilegeLevelRsp_gen_eq
@@ -124,4 +128,37 @@ import Bmc.Proofs.GenDec.AES128CBC
 #print axioms Bmc.Proofs.GenDec.GetDCMICapabilitiesInfoEnhancedSystemPowerStatisticsAttrsRsp_gen_eq
 #print axioms Bmc.Proofs.GenDec.GetDCMISensorInfoRsp_gen_eq
 #print axioms Bmc.Proofs.GenDec.FullSensorRecord_gen_eq
+#print axioms Bmc.Proofs.GenDec.V2Session_gen_eq
 #print axioms Bmc.Proofs.GenDec.AES128CBC_gen_eq
+#print axioms Bmc.Proofs.EndToEnd.R.bad_map
+#print axioms Bmc.Proofs.EndToEnd.bad_of_map_eq
+#print axioms Bmc.Proofs.EndToEnd.generated_GetDeviceIDRsp_safe
+#print axioms Bmc.Proofs.EndToEnd.generated_GetChassisStatusRsp_safe
+#print axioms Bmc.Proofs.EndToEnd.generated_GetChannelAuthenticationCapabilitiesRsp_safe
+#print axioms Bmc.Proofs.EndToEnd.generated_GetChannelCipherSuitesRsp_safe
+#print axioms Bmc.Proofs.EndToEnd.generated_SetSessionPrivilegeLevelRsp_safe
+#print axioms Bmc.Proofs.EndToEnd.generated_GetSystemGUIDRsp_safe
+#print axioms Bmc.Proofs.EndToEnd.generated_GetSessionInfoRsp_safe
+#print axioms Bmc.Proofs.EndToEnd.generated_GetSDRRepositoryInfoRsp_safe
+#print axioms Bmc.Proofs.EndToEnd.generated_ReserveSDRRepositoryRsp_safe
+#print axioms Bmc.Proofs.EndToEnd.generated_GetSDRRsp_safe
+#print axioms Bmc.Proofs.EndToEnd.generated_SDR_safe
+#print axioms Bmc.Proofs.EndToEnd.generated_GetSensorReadingRsp_safe
+#print axioms Bmc.Proofs.EndToEnd.generated_FullSensorRecord_safe
+#print axioms Bmc.Proofs.EndToEnd.generated_GetPowerReadingRsp_safe
+#print axioms Bmc.Proofs.EndToEnd.generated_GetDCMICapabilitiesInfoSupportedCapabilitiesRsp_safe
+#print axioms Bmc.Proofs.EndToEnd.generated_GetDCMICapabilitiesInfoMandatoryPlatformAttrsRsp_safe
+#print axioms Bmc.Proofs.EndToEnd.generated_GetDCMICapabilitiesInfoOptionalPlatformAttrsRsp_safe
+#print axioms Bmc.Proofs.EndToEnd.generated_GetDCMICapabilitiesInfoManageabilityAccessAttrsRsp_safe
+#print axioms Bmc.Proofs.EndToEnd.generated_OpenSessionRsp_safe
+#print axioms Bmc.Proofs.EndToEnd.generated_RAKPMessage1_safe
+#print axioms Bmc.Proofs.EndToEnd.generated_RAKPMessage2_safe
+#print axioms Bmc.Proofs.EndToEnd.generated_RAKPMessage4_safe
+#print axioms Bmc.Proofs.EndToEnd.generated_SessionSelector_safe
+#print axioms Bmc.Proofs.EndToEnd.generated_V1Session_safe
+#print axioms Bmc.Proofs.EndToEnd.generated_Message_safe
+#print axioms Bmc.Proofs.EndToEnd.generated_Cap5_safe
+#print axioms Bmc.Proofs.EndToEnd.generated_GetDCMISensorInfoRsp_safe
+#print axioms Bmc.Proofs.EndToEnd.generated_AES128CBC_safe
+#print axioms Bmc.Proofs.EndToEnd.generated_V2Session_safe
+#print axioms Bmc.Proofs.EndToEnd.generated_parseCipherSuiteRecordData_safe
